@@ -11,7 +11,7 @@ pub mod shimvec { include!("../../common/shimvec.rs"); }
 
 macro_rules! real_mod {
     ($name:ident, $file:literal) => {
-        pub mod $name { include!(concat!("/repo/src/", $file)); }
+        pub mod $name { include!(concat!(env!("FLOUNDER_SRC"), "/", $file)); }
     };
 }
 real_mod!(bitboard, "bitboard.rs");
@@ -24,10 +24,10 @@ real_mod!(timer, "timer.rs");
 real_mod!(transposition, "transposition.rs");
 real_mod!(util, "util.rs");
 real_mod!(history, "history.rs");
-pub mod square { include!("/repo/src/square.rs"); }
+pub mod square { include!(concat!(env!("FLOUNDER_SRC"), "/square.rs")); }
 pub mod magic {
     use crate::randf as rand;
-    include!("/repo/src/magic.rs");
+    include!(concat!(env!("FLOUNDER_SRC"), "/magic.rs"));
     pub mod vh {
         use super::*;
         pub fn fields(m: &Magic) -> ([u64; 64], [u64; 64], [u64; 64], [u64; 64], &Vec<Vec<u64>>, &Vec<Vec<u64>>) {
@@ -39,7 +39,10 @@ pub mod magic {
     }
 }
 pub mod eval {
-    include!("/repo/src/eval.rs");
+    #[cfg(kani)]
+    include!(concat!(env!("FLOUNDER_SRC"), "/eval.rs"));
+    #[cfg(not(kani))]
+    include!("gen/eval_native.rs");
     pub mod vh {
         use super::*;
         pub fn with_state(g: i32, o: i32, e: i32) -> Evaluator { Evaluator { gamephase: g, opening_score: o, endgame_score: e } }
@@ -63,7 +66,7 @@ pub mod eval {
     }
 }
 pub mod fen {
-    include!("/repo/src/fen.rs");
+    include!(concat!(env!("FLOUNDER_SRC"), "/fen.rs"));
     pub mod vh {
         use super::*;
         pub fn halfmove(s: &str) -> u64 { parse_halfmove_clock(s) as u64 }
@@ -76,7 +79,7 @@ pub mod fen {
 }
 pub mod zobrist {
     use crate::randf as rand;
-    include!("/repo/src/zobrist.rs");
+    include!(concat!(env!("FLOUNDER_SRC"), "/zobrist.rs"));
     pub mod vh {
         use super::*;
         pub fn from_keys(table_keys: [[[u64; 64]; 6]; 2], w: u64, c: [[u64; 2]; 2], e: [u64; 64]) -> ZobristTable {
@@ -89,7 +92,7 @@ pub mod zobrist {
     }
 }
 pub mod board {
-    include!("/repo/src/board.rs");
+    include!(concat!(env!("FLOUNDER_SRC"), "/board.rs"));
     pub mod vh {
         use super::*;
         pub fn position_from_raw(pieces: [u64; 6], colors: [u64; 2]) -> Position { Position { pieces, colors } }
@@ -99,7 +102,7 @@ pub mod board {
 pub mod move_gen {
     #[cfg(kani)]
     use crate::shimvec::Vec;
-    include!("/repo/src/move_gen.rs");
+    include!(concat!(env!("FLOUNDER_SRC"), "/move_gen.rs"));
     pub mod vh {
         use super::*;
         pub type MoveList = Vec<Move>;
@@ -142,8 +145,8 @@ pub mod move_gen {
         }
     }
 }
-pub mod search { include!("/repo/src/search.rs"); }
-pub mod uci { include!("/repo/src/uci.rs"); }
+pub mod search { include!(concat!(env!("FLOUNDER_SRC"), "/search.rs")); }
+pub mod uci { include!(concat!(env!("FLOUNDER_SRC"), "/uci.rs")); }
 
 pub mod spec;
 pub mod common;
